@@ -504,7 +504,7 @@ def run_check(modname, tier, seed=0):
             'obligation_labels_reached': dict(tot['labels']),
             'functions_encoded': functions, 'stubs': stubs, 'axioms': sorted(tot['axioms']),
             'bounds': getattr(mod, 'BOUNDS', {}).get(tier, ''), 'outside_claim': getattr(mod, 'OUTSIDE', []),
-            'harnesses': per_h, 'exhaustive': exhaustive_all, 'samples': tot['samples'][:6] or [{'note': 'no path completed'}],
+            'harnesses': _compact(per_h), 'exhaustive': exhaustive_all, 'samples': tot['samples'][:6] or [{'note': 'no path completed'}],
             'known_findings_hit': [k['id'] for k, _ in known_hits],
             'checker_cmd': './vcheck %s --tier %s' % (pid, tier),
             'trusted_base': ['z3 %s' % z3.get_version_string(), 'CPython %s' % sys.version.split()[0],
@@ -548,6 +548,25 @@ def run_check(modname, tier, seed=0):
         if rc == 0:
             rc = 3
     return rc
+
+
+def _compact(per_h, limit=150):
+    """evidence stays readable: beyond `limit` harnesses, report per group (harness base name) with totals and a few members"""
+    if len(per_h) <= limit:
+        return per_h
+    groups = collections.OrderedDict()
+    for p in per_h:
+        g = p['harness'].split('[')[0]
+        d = groups.setdefault(g, {'harness_group': g, 'harnesses': 0, 'paths': 0, 'infeasible_pruned': 0, 'obligations': 0, 'discharged': 0, 'unknown': 0, 'queries': 0,
+                                  'solver_s': 0.0, 'exhaustive': True, 'unexplored_prefixes': 0, 'witness_validated': 0, 'witness_mismatch': 0, 'members_sample': []})
+        d['harnesses'] += 1
+        for k in ('paths', 'infeasible_pruned', 'obligations', 'discharged', 'unknown', 'queries', 'unexplored_prefixes', 'witness_validated', 'witness_mismatch'):
+            d[k] += p[k]
+        d['solver_s'] = round(d['solver_s'] + p['solver_s'], 2)
+        d['exhaustive'] = d['exhaustive'] and p['exhaustive']
+        if len(d['members_sample']) < 5:
+            d['members_sample'].append({'harness': p['harness'], 'paths': p['paths'], 'bounds': p['bounds']})
+    return list(groups.values())
 
 
 def _safe(s):
